@@ -329,6 +329,10 @@ def run(ctx):
     # ---- "newtype structs ... deserializes back to an equal value": the codec is transparent for them on both sides
     from .c03 import newtype_rule
     newtype_rule(ctx)
+    # ---- "at most one unit variant ... carry the branch's Avro name": the names the decoder proposes for union branches are
+    # the names under which the encoder finds them, the unit variant Null included (shared with C01)
+    from .c01 import name_pair
+    name_pair(ctx)
 
     # ---- macro side, on the corpus
     c20gen.run(ctx)
